@@ -9,22 +9,89 @@ variable {F : Type}
 /-- characters of a type keyword in front of its `(`: no blank, no `(` -/
 def selc (c : Byte) : Bool := !isSpace c && c != 40
 
-/-- the type-name loop over a keyword directly followed by `(`: the keyword is collected, the `(` is consumed -/
-theorem selNameLoop_word (ns : List Byte) (hns : ns.all selc = true) (r : List Byte) (sk : Bool) :
-    ∀ (fuel : Nat) (tmp : List Byte) (c : Byte) (l : List Byte), selc c = true → ns.length + 2 ≤ fuel →
-      selNameLoop fuel tmp false c (G l (ns ++ 40 :: r) sk) = .ok (tmp ++ c :: ns, G (40 :: (ns.reverse ++ l)) r sk) := by
-  induction ns with
+/-- `in >> c` over blanks, either state of `skipws`: with `skipws` on the blanks are skipped, with it off the first blank
+    is read -/
+theorem shiftInto_sk (c : Byte) (l sp : List Byte) (x : Byte) (t : List Byte) (hsp : sp.all isSpace = true) (hx : isSpace x = false) :
+    shiftInto c (G l (sp ++ x :: t) true) = (x, G (x :: (sp.reverse ++ l)) t true) := by
+  simp [shiftInto, IStream.getChar, IStream.sentry, IStream.good, dropSpaces_append _ _ _ hsp, dropSpaces_nonspace _ _ _ hx]
+
+/-- the type-name loop after the keyword: blanks (the end-of-type flag is set by the first) up to the `(` -/
+theorem selNameLoop_eot (sp : List Byte) (hsp : sp.all isSpace = true) (r : List Byte) :
+    ∀ (fuel : Nat) (tmp : List Byte) (eot : Bool) (b : Byte) (l : List Byte), isSpace b = true → sp.length + 2 ≤ fuel →
+      selNameLoop fuel tmp eot b (G (b :: l) (sp ++ 40 :: r) false) = .ok (tmp, G (40 :: (sp.reverse ++ b :: l)) r false) := by
+  induction sp with
   | nil =>
-    intro fuel tmp c l hc hf
-    simp only [selc, Bool.and_eq_true, Bool.not_eq_true', bne_iff_ne, ne_eq] at hc
-    have hc40 : (c != 40) = true := by simpa using hc.2
+    intro fuel tmp eot b l hb hf
+    have hb40 : (b != 40) = true := by
+      have : b ≠ 40 := by intro h; rw [h] at hb; exact absurd hb (by decide)
+      simpa using this
     match fuel, hf with
     | n + 2, _ =>
       unfold selNameLoop
-      simp only [hc40, G_good, Bool.and_self, if_true, Bool.false_or, hc.1, Bool.false_eq_true, if_false, List.nil_append]
-      rw [shiftInto_good c l 40 r sk (by decide)]
+      simp only [hb40, G_good, Bool.and_self, if_true, hb, Bool.or_true, List.nil_append]
+      rw [shiftInto_ns]
       unfold selNameLoop
       simp [pure, Except.pure]
+  | cons y t ih =>
+    intro fuel tmp eot b l hb hf
+    have hy : isSpace y = true := by simp at hsp; exact hsp.1
+    have ht : t.all isSpace = true := by simp at hsp ⊢; exact hsp.2
+    have hb40 : (b != 40) = true := by
+      have : b ≠ 40 := by intro h; rw [h] at hb; exact absurd hb (by decide)
+      simpa using this
+    match fuel, hf with
+    | n + 1, hf =>
+      unfold selNameLoop
+      simp only [hb40, G_good, Bool.and_self, if_true, hb, Bool.or_true, List.cons_append]
+      rw [shiftInto_ns]
+      simp only
+      rw [ih ht n tmp true y (b :: l) hy (by simp only [List.length_cons] at hf; omega)]
+      simp
+
+/-- the last character of the keyword, blanks, `(` -/
+theorem selNameLoop_last (sp : List Byte) (hsp : sp.all isSpace = true) (r : List Byte) (sk : Bool) (fuel : Nat)
+    (tmp : List Byte) (c : Byte) (l : List Byte) (hc : selc c = true) (hf : sp.length + 3 ≤ fuel) :
+    selNameLoop fuel tmp false c (G l (sp ++ 40 :: r) sk) = .ok (tmp ++ [c], G (40 :: (sp.reverse ++ l)) r sk) := by
+  simp only [selc, Bool.and_eq_true, Bool.not_eq_true', bne_iff_ne, ne_eq] at hc
+  have hc40 : (c != 40) = true := by simpa using hc.2
+  match fuel, hf with
+  | n + 2, hf =>
+    cases sk with
+    | true =>
+      unfold selNameLoop
+      simp only [hc40, G_good, Bool.and_self, if_true, Bool.false_or, hc.1, Bool.false_eq_true, if_false]
+      rw [shiftInto_sk c l sp 40 r hsp (by decide)]
+      unfold selNameLoop
+      simp [pure, Except.pure]
+    | false =>
+      cases sp with
+      | nil =>
+        unfold selNameLoop
+        simp only [hc40, G_good, Bool.and_self, if_true, Bool.false_or, hc.1, Bool.false_eq_true, if_false, List.nil_append]
+        rw [shiftInto_ns]
+        unfold selNameLoop
+        simp [pure, Except.pure]
+      | cons y t =>
+        have hy : isSpace y = true := by simp at hsp; exact hsp.1
+        have ht : t.all isSpace = true := by simp at hsp ⊢; exact hsp.2
+        unfold selNameLoop
+        simp only [hc40, G_good, Bool.and_self, if_true, Bool.false_or, hc.1, Bool.false_eq_true, if_false, List.cons_append]
+        rw [shiftInto_ns]
+        simp only
+        rw [selNameLoop_eot t ht r (n + 1) (tmp ++ [c]) false y l hy (by simp only [List.length_cons] at hf; omega)]
+        simp
+
+/-- the type-name loop over a keyword, blanks, `(`: the keyword is collected, the `(` is consumed -/
+theorem selNameLoop_word (ns : List Byte) (hns : ns.all selc = true) (sp : List Byte) (hsp : sp.all isSpace = true)
+    (r : List Byte) (sk : Bool) :
+    ∀ (fuel : Nat) (tmp : List Byte) (c : Byte) (l : List Byte), selc c = true → ns.length + sp.length + 3 ≤ fuel →
+      selNameLoop fuel tmp false c (G l (ns ++ (sp ++ 40 :: r)) sk) =
+        .ok (tmp ++ c :: ns, G (40 :: (sp.reverse ++ (ns.reverse ++ l))) r sk) := by
+  induction ns with
+  | nil =>
+    intro fuel tmp c l hc hf
+    have := selNameLoop_last sp hsp r sk fuel tmp c l hc (by simpa using hf)
+    simpa using this
   | cons x t ih =>
     intro fuel tmp c l hc hf
     have hx : selc x = true := by simp at hns; exact hns.1
@@ -54,27 +121,26 @@ def LeafRd (env : Env F) (m : SelMember) (tok : List Byte) (a : Atom F) : Prop :
 theorem selectRead_typed (env : Env F) (sd : SelectD) (m : SelMember) (n0 : Byte) (ns : List Byte)
     (hn0 : isAlpha n0 = true) (hns : ns.all selc = true)
     (hfind : sd.members.find? (fun x => x.name == bytesToString (upperBytes (n0 :: ns)) && !x.ty.isEntity) = some m)
-    (tok : List Byte) (a : Atom F) (hleaf : LeafRd env m tok a) (sB sC : List Byte) (hsB : sB.all isSpace = true)
-    (hsC : sC.all isSpace = true) (l : List Byte) (sk : Bool) (rest : List Byte) :
+    (tok : List Byte) (a : Atom F) (hleaf : LeafRd env m tok a) (sA sB sC : List Byte) (hsA : sA.all isSpace = true)
+    (hsB : sB.all isSpace = true) (hsC : sC.all isSpace = true) (l : List Byte) (sk : Bool) (rest : List Byte) :
     ∃ sk', (sk' = sk ∨ sk' = false) ∧
-      selectRead env sd (G l (n0 :: (ns ++ 40 :: (sB ++ (tok ++ (sC ++ 41 :: rest))))) sk) =
+      selectRead env sd (G l (n0 :: (ns ++ (sA ++ 40 :: (sB ++ (tok ++ (sC ++ 41 :: rest)))))) sk) =
         .ok (.null, .sel m.name a,
-             G (41 :: (sC.reverse ++ (tok.reverse ++ (sB.reverse ++ 40 :: (ns.reverse ++ n0 :: l))))) rest sk') := by
+             G (41 :: (sC.reverse ++ (tok.reverse ++ (sB.reverse ++ 40 :: (sA.reverse ++ (ns.reverse ++ n0 :: l)))))) rest sk') := by
   obtain ⟨hn0s, _, _, hn040, _, _, _, _, _⟩ := alpha_facts hn0
   obtain ⟨⟨c, u, hcu, hcs⟩, hrd⟩ := hleaf
-  obtain ⟨S, sk', hsk', hcr, hws⟩ := hrd (sB.reverse ++ 40 :: (ns.reverse ++ n0 :: l)) sk sC rest hsC
+  obtain ⟨S, sk', hsk', hcr, hws⟩ := hrd (sB.reverse ++ 40 :: (sA.reverse ++ (ns.reverse ++ n0 :: l))) sk sC rest hsC
   refine ⟨sk', hsk', ?_⟩
   have hsel0 : selc n0 = true := by simp [selc, hn0s, hn040]
   unfold selectRead
-  rw [show (G l (n0 :: (ns ++ 40 :: (sB ++ (tok ++ (sC ++ 41 :: rest))))) sk).ws = G l (n0 :: (ns ++ 40 :: (sB ++ (tok ++ (sC ++ 41 :: rest))))) sk
-    from ws_good0 l n0 _ sk hn0s]
+  rw [show (G l (n0 :: (ns ++ (sA ++ 40 :: (sB ++ (tok ++ (sC ++ 41 :: rest)))))) sk).ws = _ from ws_good0 l n0 _ sk hn0s]
   simp only [bind, Except.bind, pure, Except.pure]
   rw [shiftInto_good 0 l n0 _ sk hn0s]
   simp only [hn0, if_true]
-  rw [selNameLoop_word ns hns _ sk _ [] n0 (n0 :: l) hsel0 (by simp only [G, List.length_append, List.length_cons]; omega)]
+  rw [selNameLoop_word ns hns sA hsA _ sk _ [] n0 (n0 :: l) hsel0 (by simp only [G, List.length_append, List.length_cons]; omega)]
   simp only [List.nil_append, hfind]
-  rw [hcu, show (G (40 :: (ns.reverse ++ n0 :: l)) (sB ++ (c :: u ++ (sC ++ 41 :: rest))) sk).ws =
-    G (sB.reverse ++ 40 :: (ns.reverse ++ n0 :: l)) (c :: u ++ (sC ++ 41 :: rest)) sk from ws_good _ sB c _ sk hsB hcs]
+  rw [hcu, show (G (40 :: (sA.reverse ++ (ns.reverse ++ n0 :: l))) (sB ++ (c :: u ++ (sC ++ 41 :: rest))) sk).ws =
+    G (sB.reverse ++ 40 :: (sA.reverse ++ (ns.reverse ++ n0 :: l))) (c :: u ++ (sC ++ 41 :: rest)) sk from ws_good _ sB c _ sk hsB hcs]
   rw [← hcu, hcr]
   simp only [hws]
   rw [shiftInto_good n0 _ 41 rest sk' (by decide)]
@@ -171,11 +237,11 @@ theorem LeafRd.binary (env : Env F) (m : SelMember) (hm : m.ty = .binary) (hex :
 
 /-! ## select-valued attributes and aggregate elements -/
 
-/-- the text of a typed select value: `KEYWORD(` blanks value blanks `)` -/
-def selText (n0 : Byte) (ns sB tok sC : List Byte) : List Byte := n0 :: (ns ++ 40 :: (sB ++ (tok ++ (sC ++ [41]))))
+/-- the text of a typed select value: `KEYWORD` blanks `(` blanks value blanks `)` -/
+def selText (n0 : Byte) (ns sA sB tok sC : List Byte) : List Byte := n0 :: (ns ++ (sA ++ 40 :: (sB ++ (tok ++ (sC ++ [41])))))
 
-theorem selText_append (n0 : Byte) (ns sB tok sC R : List Byte) :
-    selText n0 ns sB tok sC ++ R = n0 :: (ns ++ 40 :: (sB ++ (tok ++ (sC ++ 41 :: R)))) := by
+theorem selText_append (n0 : Byte) (ns sA sB tok sC R : List Byte) :
+    selText n0 ns sA sB tok sC ++ R = n0 :: (ns ++ (sA ++ 40 :: (sB ++ (tok ++ (sC ++ 41 :: R))))) := by
   simp [selText]
 
 /-- a select-valued attribute given `KEYWORD(value)` -/
@@ -183,12 +249,12 @@ theorem attr_select_typed (env : Env F) (strict : Bool) (a : AttrD) (n : String)
     (hder : a.derived = false) (hcfg : env.lex.criSkipsComments = true) (sd : SelectD) (hsd : env.dict.select? n = some sd)
     (m : SelMember) (n0 : Byte) (ns : List Byte) (hn0 : isAlpha n0 = true) (hns : ns.all selc = true)
     (hfind : sd.members.find? (fun x => x.name == bytesToString (upperBytes (n0 :: ns)) && !x.ty.isEntity) = some m)
-    (tok : List Byte) (av : Atom F) (hleaf : LeafRd env m tok av) (sB sC : List Byte) (hsB : sB.all isSpace = true)
-    (hsC : sC.all isSpace = true)
+    (tok : List Byte) (av : Atom F) (hleaf : LeafRd env m tok av) (sA sB sC : List Byte) (hsA : sA.all isSpace = true)
+    (hsB : sB.all isSpace = true) (hsC : sC.all isSpace = true)
     (l : List Byte) (sk : Bool) (seps : List Byte) (hs : Seps seps) (d : Byte) (rest : List Byte) (hd : d = 44 ∨ d = 41) :
     ∃ sk', (sk' = sk ∨ sk' = false) ∧
-      attrSTEPread env strict a (G l (selText n0 ns sB tok sC ++ (seps ++ d :: rest)) sk) =
-        .ok (.null, .one (.sel m.name av), G (seps.reverse ++ ((selText n0 ns sB tok sC).reverse ++ l)) (d :: rest) sk') := by
+      attrSTEPread env strict a (G l (selText n0 ns sA sB tok sC ++ (seps ++ d :: rest)) sk) =
+        .ok (.null, .one (.sel m.name av), G (seps.reverse ++ ((selText n0 ns sA sB tok sC).reverse ++ l)) (d :: rest) sk') := by
   obtain ⟨hn0s, _, _, _, _, _, _, _, _⟩ := alpha_facts hn0
   have hn036 : (n0 == 36) = false := by
     have : n0 ≠ 36 := by intro h; rw [h] at hn0; exact absurd hn0 (by decide)
@@ -199,11 +265,11 @@ theorem attr_select_typed (env : Env F) (strict : Bool) (a : AttrD) (n : String)
   have hn041 : (n0 == 41) = false := by
     have : n0 ≠ 41 := by intro h; rw [h] at hn0; exact absurd hn0 (by decide)
     simpa using this
-  obtain ⟨sk', hsk', hsr⟩ := selectRead_typed env sd m n0 ns hn0 hns hfind tok av hleaf sB sC hsB hsC l sk (seps ++ d :: rest)
+  obtain ⟨sk', hsk', hsr⟩ := selectRead_typed env sd m n0 ns hn0 hns hfind tok av hleaf sA sB sC hsA hsB hsC l sk (seps ++ d :: rest)
   refine ⟨sk', hsk', ?_⟩
   rw [selText_append]
   unfold attrSTEPread
-  rw [show (G l (n0 :: (ns ++ 40 :: (sB ++ (tok ++ (sC ++ 41 :: (seps ++ d :: rest)))))) sk).ws = _ from ws_good0 l n0 _ sk hn0s]
+  rw [show (G l (n0 :: (ns ++ (sA ++ 40 :: (sB ++ (tok ++ (sC ++ 41 :: (seps ++ d :: rest))))))) sk).ws = _ from ws_good0 l n0 _ sk hn0s]
   simp only [bind, Except.bind, pure, Except.pure]
   rw [peekC_good]
   simp only [hder, Bool.false_eq_true, if_false, hn036, hn044, hn041, Bool.or_self, hty, hsd, hsr]
@@ -275,22 +341,22 @@ theorem ElemRd.selTyped (env : Env F) (hcfg : env.lex.criSkipsComments = true) (
     (n : String) (sd : SelectD) (hsd : env.dict.select? n = some sd)
     (m : SelMember) (n0 : Byte) (ns : List Byte) (hn0 : isAlpha n0 = true) (hns : ns.all selc = true)
     (hfind : sd.members.find? (fun x => x.name == bytesToString (upperBytes (n0 :: ns)) && !x.ty.isEntity) = some m)
-    (tok : List Byte) (av : Atom F) (hleaf : LeafRd env m tok av) (sB sC : List Byte) (hsB : sB.all isSpace = true)
-    (hsC : sC.all isSpace = true) (before after : List Byte) (hb : Seps before) (ha : Seps after) :
-    ElemRd env (.select n) { tok := selText n0 ns sB tok sC, before := before, after := after, v := .sel m.name av } := by
+    (tok : List Byte) (av : Atom F) (hleaf : LeafRd env m tok av) (sA sB sC : List Byte) (hsA : sA.all isSpace = true)
+    (hsB : sB.all isSpace = true) (hsC : sC.all isSpace = true) (before after : List Byte) (hb : Seps before) (ha : Seps after) :
+    ElemRd env (.select n) { tok := selText n0 ns sA sB tok sC, before := before, after := after, v := .sel m.name av } := by
   obtain ⟨hn0s, hn047, _, _, _, _, _, _, hn092⟩ := alpha_facts hn0
   have hn044 : n0 ≠ 44 := by intro h; rw [h] at hn0; exact absurd hn0 (by decide)
   have hn041 : n0 ≠ 41 := by intro h; rw [h] at hn0; exact absurd hn0 (by decide)
   refine ⟨hb, ⟨n0, _, rfl, hn0s, hn047, hn041, hn092⟩, ?_⟩
   intro l sk d rest hd
-  obtain ⟨sk', hsk', hsr⟩ := selectRead_typed env sd m n0 ns hn0 hns hfind tok av hleaf sB sC hsB hsC l sk (after ++ d :: rest)
+  obtain ⟨sk', hsk', hsr⟩ := selectRead_typed env sd m n0 ns hn0 hns hfind tok av hleaf sA sB sC hsA hsB hsC l sk (after ++ d :: rest)
   refine ⟨sk', hsk', ?_⟩
-  show elemRead env (.select n) (G l (selText n0 ns sB tok sC ++ (after ++ d :: rest)) sk) = _
+  show elemRead env (.select n) (G l (selText n0 ns sA sB tok sC ++ (after ++ d :: rest)) sk) = _
   rw [selText_append, elemRead_at_tok env hagg _ l n0 _ sk hn0s hn047 hn044 hn041 hn092, elemReadCore_select env n sd hsd]
   simp only [bind, Except.bind, pure, Except.pure, hsr]
   rw [cri_seps env.lex hcfg after ha _ rest d false sk' .null hd]
   have hcri := cri_seps env.lex hcfg [] (Seps.blanks [] (by simp))
-    (after.reverse ++ (41 :: (sC.reverse ++ (tok.reverse ++ (sB.reverse ++ 40 :: (ns.reverse ++ n0 :: l)))))) rest d false sk' .null hd
+    (after.reverse ++ (41 :: (sC.reverse ++ (tok.reverse ++ (sB.reverse ++ 40 :: (sA.reverse ++ (ns.reverse ++ n0 :: l))))))) rest d false sk' .null hd
   simp only [List.nil_append, List.reverse_nil] at hcri
   simp only [hcri]
   simp [selText]
